@@ -406,7 +406,7 @@ def shard(seed, n, tier):
 
 def main(tier, seed, cases=None):
     t0 = time.time()
-    shards, n = (6, 150) if tier == 'quick' else (16, 3000)
+    shards, n = (12, 200) if tier == 'quick' else (16, 3000)
     if cases:
         n = cases
     kws = [dict(seed=seed * 1000 + i, n=n, tier=tier) for i in range(shards)]
